@@ -22,7 +22,7 @@ func (g *G) Query(sub bool) ([]Tok, ast.Statement) {
 	}
 	var wt []Tok
 	var with *ast.WithClause
-	if g.chance(withPct, "with") {
+	if !g.F.Flat && g.chance(withPct, "with") {
 		wt, with = g.withClause()
 	}
 	t, n := g.setOpOrSelect(sub)
@@ -48,7 +48,7 @@ func leftmost(s ast.Statement) *ast.SelectStatement {
 }
 
 func (g *G) setOpOrSelect(sub bool) ([]Tok, ast.Statement) {
-	if !g.chance(18, "setop") {
+	if g.F.Flat || !g.chance(18, "setop") {
 		t, n := g.Select(sub, true)
 		return t, n
 	}
@@ -188,7 +188,7 @@ func (g *G) fromItem() ([]Tok, ast.TableReference) {
 	var t []Tok
 	var ref ast.TableReference
 	lateral := false
-	if g.depth < g.F.MaxDepth && g.chance(20, "derived") {
+	if !g.F.Flat && g.depth < g.F.MaxDepth && g.chance(20, "derived") {
 		g.use("derived_table")
 		if g.chance(25, "lateral") {
 			lateral = true
@@ -328,7 +328,7 @@ func (g *G) Select(small, tail bool) ([]Tok, *ast.SelectStatement) {
 				jk := joinKinds[g.intn(len(joinKinds), "joinkind")]
 				t = cat(t, g.joinWords(jk.words))
 				var right ast.TableReference
-				if g.depth < g.F.MaxDepth && g.chance(15, "joinderived") {
+				if !g.F.Flat && g.depth < g.F.MaxDepth && g.chance(15, "joinderived") {
 					g.use("join_derived")
 					lat := g.chance(30, "joinlateral")
 					if lat {
@@ -472,7 +472,7 @@ func (g *G) Select(small, tail bool) ([]Tok, *ast.SelectStatement) {
 				f.IsPercent = true
 			}
 			t = cat(t, g.kw(rapid.SampledFrom([]string{"ROW", "ROWS"}).Draw(g.T, "rowword2")))
-			if g.chance(30, "ties") {
+			if !g.F.Flat && g.chance(30, "ties") {
 				t = cat(t, g.kw("WITH", "TIES"))
 				f.WithTies = true
 			} else {
@@ -480,7 +480,7 @@ func (g *G) Select(small, tail bool) ([]Tok, *ast.SelectStatement) {
 			}
 			s.Fetch = f
 		}
-		if len(s.From) > 0 && !g.F.NoForClause && g.chance(8, "forclause") {
+		if len(s.From) > 0 && !g.F.NoForClause && !g.F.Flat && g.chance(8, "forclause") {
 			g.use("for_clause")
 			lt := rapid.SampledFrom([]string{"UPDATE", "SHARE", "NO KEY UPDATE", "KEY SHARE"}).Draw(g.T, "locktype")
 			fc := &ast.ForClause{LockType: lt}
